@@ -14,6 +14,45 @@ EXPLANATION = (
     "numbers and sequences).")
 
 
+def suffix_guard(rep, F, cg):
+    """`StringExt::trim_suffix removes exactly one trailing occurrence or nothing`"""
+    import re
+    from errguard import structural_facts
+    from panics import skey_call
+    R = 'SUFFIX-GUARD'
+    rep.rule(R, 'each StringExt::trim_suffix either forwards to another StringExt::trim_suffix with the same operands, or shortens the string only on the TRUE edge of '
+             '`self.ends_with(suffix)` and by a range that ends `suffix.len()` bytes before the end (..len(self) - len(suffix)); on the other edge it returns the '
+             'string unchanged. A search (find / rfind / split) for the suffix anywhere else in the string cannot stand in for the test')
+    impls = sorted(n for n in F.bodies if n.endswith(' as core::string::StringExt>::trim_suffix'))
+    for fn in impls:
+        B = cg.body(fn)
+        calls = [(i, t, callee_of(t) or t.get('callee') or '') for i, t in B.calls()]
+        fwd_ = [c for i, t, c in calls if c.endswith('StringExt::trim_suffix') or c.endswith('StringExt>::trim_suffix')]
+        idx = [(i, t) for i, t, c in calls if c.endswith('std::ops::Index>::index') or c.endswith('std::ops::Index::index') or c.endswith('::get') or c.endswith('split_at') or c.endswith('truncate')]
+        why = ''
+        if fwd_ and not idx:
+            ok = True
+        else:
+            ok = bool(idx)
+            if not idx:
+                why = 'no slicing site and no forwarding call found'
+            for i, t in idx:
+                fs = structural_facts(B, i)
+                k = skey_call(B, t)
+                g = any(re.match(r'^ends_with\(arg1,', d) and v is True for d, v in fs)
+                r = re.search(r'RangeTo\(Sub\(len\(arg1\),len\(arg2\)\)(\.0)?\)', k) is not None
+                if not (g and r):
+                    ok = False
+                    why = 'the slice %s is taken under %s' % (k, fs)
+            searching = sorted({c for i, t, c in calls if c.startswith('<str>::') and c.split('::')[-1] in ('rfind', 'find', 'rsplit_once', 'split_once', 'rsplit', 'rmatch_indices', 'match_indices')})
+            if searching:
+                ok = False
+                why = (why + '; ' if why else '') + 'locates the suffix with %s' % searching
+        rep.add(R, 'suffixguard:%s' % fn, '%s cuts only a verified trailing occurrence' % fn, ok, '%s:%d' % (B.file, B.line),
+                '' if ok else '%s: %s — an occurrence of the suffix that is not at the end is cut off together with everything after it' % (fn, why))
+    rep.floor(R, 'StringExt::trim_suffix impls', len(impls), 2)
+
+
 def run(rep, F, ctx):
     H = ctx['harness']
     cg = CallGraph(F)
@@ -121,6 +160,14 @@ def run(rep, F, ctx):
         bad = [(t.get('callee') or '') for i, t in B.calls() if (t.get('callee') or '').split('::')[-1] in ('size_hint', 'len') and 'Iterator' in (t.get('callee') or '')]
         rep.add('EXACT-LEN', 'exactlen:%s' % m, 'IteratorExt::%s does not derive a length from size_hint' % m, not bad, '%s:%d' % (B.file, B.line),
                 '' if not bad else 'IteratorExt::%s uses %s as the sequence length: wrong indices for iterators whose size hint is not exact (Filter, chars())' % (m, bad))
+    suffix_guard(rep, F, cg)
+    import primtable as _pt
+    _pt.prim_table(rep, F, cg, engine.load_table('primitives.json'), _pt.GROUPS['C19'])
+    import siteguard as _sg
+    _t = engine.load_table('site_guards.json')
+    _sg.site_guard(rep, F, cg, _t, _t['_groups']['C19'])
+    _th = engine.load_table('site_guards_harness.json')
+    _sg.site_guard(rep, ctx['harness'], _sg.BodyOnly(ctx['harness']), _th, _th['_groups']['C19'], rule='SITE-GUARD-PROBES')
     return engine.finish(
         rep, 'other', EXPLANATION,
         assumptions=['Rust drop semantics: a named local is dropped exactly once when its scope ends, in reverse declaration order, also during unwinding'],
